@@ -280,3 +280,94 @@ Print Assumptions C10_spelling_test_immaterial.
 Print Assumptions C10_workspace_recase_spec.
 Print Assumptions C10_workspace_recase_answers.
 Print Assumptions C10_workspace_recase_nonvacuous.
+
+(* ---- the tables of the abstract model ARE the tables built from the real syntax tree ----
+   Model/Annot.v: AstAnnotator's table construction (walk_tree / visit / handle_*_decl /
+   notify_new_scope / notify_end_method) over the tree the real parser delivers (Model/Tree.v),
+   tied to the code by the differential stage `annot` of checks/c10.py.
+   regular t: the root inserts nothing; its children are: nodes that insert nothing, a class or
+   module header, then uses / constants / types / fields, then procedures / functions (nodes that
+   insert nothing anywhere in between); nothing is declared below a header / uses / constant /
+   type / field, and only parameters and local variables below a method.  (Outside this shape the
+   annotator itself departs from the abstract model: C10_tables_from_tree_shape_needed.) *)
+From GoldV Require Import Tree Annot AnnotProofs AnnotWitness RangeBase RangeTop.
+
+(* root table and every method's table: the same symbols (name, symbol type) in the same
+   insertion order, the same for_class_or_module, the same `uses` *)
+Theorem C10_tables_from_tree :
+  forall t, regular t ->
+    let e := entity_of_tree t in
+    same_table (root_table_of false t) (root_table e) /\
+    t_uses (root_table_of false t) = e_uses e /\
+    Forall2 (fun T me => same_table T (method_table e me) /\ t_uses T = e_uses e)
+            (method_tables_of false t) (e_methods e).
+Proof. exact tables_from_tree. Qed.
+
+(* the shape is decidable *)
+Theorem C10_tables_from_tree_regular_decidable : forall t, regularb t = true -> regular t.
+Proof. exact regularb_ok. Qed.
+
+(* every symbol of every table (either mode, ANY tree) is the symbol of a visited declaration
+   node: its selection range is the range of that node's name token (name node for a method), its
+   range the node's range, its name the node's identifier (or `self` for a class header); in a
+   tree with well-formed ranges (C08: NodeWf) the selection range lies inside the range *)
+Theorem C10_tables_from_tree_selection_is_declared_name :
+  forall d t T s, In T (tables_of d t) -> In s (t_syms T) ->
+    exists n, In n (visit_seq d t) /\
+      (In s (decl_syms n) /\ a_sel s = name_range n /\ a_range s = nrange n /\
+       (a_name s = nident n \/ (a_name s = s_self /\ dkind_of n = Some DClass))) /\
+      forall L, Forall_nodes (NodeWf L) t -> inside (a_sel s) (a_range s).
+Proof. exact annot_selection_is_declared_name. Qed.
+
+(* nothing dropped, nothing invented, ANY tree, either mode: the symbols of all tables together
+   are exactly one symbol per visited declaration node (two for a class header) *)
+Theorem C10_tables_from_tree_one_symbol_per_declaration_all :
+  forall d t, Permutation.Permutation (flat_map t_syms (tables_of d t)) (flat_map decl_syms (visit_seq d t)).
+Proof. exact annot_one_symbol_per_declaration_all. Qed.
+
+(* regular documents: each table holds exactly its own declarations, in source order *)
+Theorem C10_tables_from_tree_one_symbol_per_declaration :
+  forall t, regular t ->
+    exists h, find is_header (nchildren t) = Some h /\
+      t_syms (root_table_of false t) = decl_syms h ++ map decl_sym (filter is_member (nchildren t)) /\
+      map t_syms (method_tables_of false t) =
+        map (fun m => map decl_sym (filter var_like (below m))) (filter is_method (nchildren t)).
+Proof. exact annot_one_symbol_per_declaration. Qed.
+
+(* non-vacuity on the tree the real parser builds for
+   class aFoo (aBar) / uses aLib, aLib2 / const cA = 1 / type tRef : refTo aFoo / fa : int4 /
+   proc Run(p : int4, Fa : cstring) var l .. if .. var inner .. endif endproc / func G#Ev(q : int4) return tRef forward *)
+Example C10_tables_from_tree_nonvacuous :
+  regular annot_ex /\
+  e_name (entity_of_tree annot_ex) = s_aFoo /\ e_parent (entity_of_tree annot_ex) = Some s_aBar /\
+  length (e_members (entity_of_tree annot_ex)) = 5%nat /\ length (e_methods (entity_of_tree annot_ex)) = 2%nat /\
+  map aview (t_syms (root_table_of false annot_ex)) =
+    [(s_aFoo, KClass); (s_self, KClass); ([99;65], KConstant); ([116;82;101;102], KType); ([102;97], KField);
+     ([82;117;110], KProc); ([71;35;69;118], KFunc)] /\
+  map (fun T => map aview (t_syms T)) (method_tables_of false annot_ex) =
+    [ [([112], KVariable); ([70;97], KVariable); ([108], KVariable); ([105;110;110;101;114], KVariable)];
+      [([113], KVariable)] ].
+Proof.
+  destruct annot_ex_tables as (H1 & H2 & _). split; [exact annot_ex_regular|].
+  rewrite annot_ex_entity. repeat split; assumption.
+Qed.
+
+(* the shape hypothesis is needed: `class aFoo / type tCb : procedure(x : int4) / proc Run / endproc / fb : int4`
+   (real parser's tree): the parameter of the procedure type is a variable of the root table, the
+   field after the method is in the method's table; the abstract root table lists neither so *)
+Theorem C10_tables_from_tree_shape_needed :
+  exists t, find is_header (nchildren t) <> None /\
+    map aview (t_syms (root_table_of false t)) <> map sview (syms (root_table (entity_of_tree t))) /\
+    map aview (t_syms (root_table_of false t)) <> map aview (t_syms (root_table_of true t)).
+Proof.
+  exists annot_irr. destruct annot_irr_facts as (_ & H1 & H2 & _ & H4). rewrite H1, H2, H4.
+  split; [vm_compute; discriminate|]. split; discriminate.
+Qed.
+
+Print Assumptions C10_tables_from_tree.
+Print Assumptions C10_tables_from_tree_regular_decidable.
+Print Assumptions C10_tables_from_tree_selection_is_declared_name.
+Print Assumptions C10_tables_from_tree_one_symbol_per_declaration_all.
+Print Assumptions C10_tables_from_tree_one_symbol_per_declaration.
+Print Assumptions C10_tables_from_tree_nonvacuous.
+Print Assumptions C10_tables_from_tree_shape_needed.
